@@ -334,6 +334,18 @@ func body(w *runner.W) {
 		namesB := wh.Build{wh.F("include/xt_MARK.h", "B/100"), wh.F("include/xt_mark.h", "A.=upper"), wh.F("Include/xt_MARK.h", "=third"),
 			wh.F("a", "=2"), wh.F("a.b", "=1"), wh.F("a b", "D"), wh.F("Ab", "C/65535"), wh.F("\u00e9t\u00e9/naive", "=3"), wh.F("d/.Keep", ""), wh.F("saves../slot2", "=s1"), wh.F("..saves/x", "=s2!"), wh.F("x..", ""), wh.F("..../y", "=s6")}
 		ps = append(ps, pr{namesA, namesB}, pr{namesB, namesA}, pr{namesA, namesA})
+		// siblings whose names differ in the byte after a directory's name ('/' sorts after ' ',
+		// '-', '.'): d/x next to "d x", "d-x", "d.x", "d0"
+		sortA := wh.Build{wh.F("d/x", "=7"), wh.F("d.x", "=8"), wh.F("d-x", "=9"), wh.F("d x", ""), wh.F("d0", "A/100"), wh.F("d/y/z", "=z")}
+		sortB := wh.Build{wh.F("d/x", "=8"), wh.F("d.x", "=7"), wh.F("d-x", ""), wh.F("d x", "=9"), wh.F("d0/x", "A/100"), wh.F("d/y", "=z")}
+		ps = append(ps, pr{sortA, sortB}, pr{sortB, sortA})
+		// very many tiny files, most of them with the same few contents
+		var manyA, manyB wh.Build
+		for i := 0; i < 300; i++ {
+			manyA = append(manyA, wh.F(fmt.Sprintf("t/%03d", i), fmt.Sprintf("=content %d", i%5)))
+			manyB = append(manyB, wh.F(fmt.Sprintf("u/%03d", (i*7)%300), fmt.Sprintf("=content %d", i%7)))
+		}
+		ps = append(ps, pr{manyA, manyB}, pr{manyB, manyA})
 		comps := []wh.Comp{"none", "gzip-1", "brotli-1"}
 		for i, p := range ps {
 			if w.Quick() {
